@@ -42,6 +42,24 @@ Pred(v) == IF v.t = "m" THEN PredMsg(v) ELSE PredEls(v.el)
 \* L1
 PredNotBelow(v, off) == (Predictable(v) /\ ~MustRefuse(v, off)) => Pred(v) >= EncLen(v)
 
+(* ---------------------------------------------------------------- completion messages in function form *)
+\* Client objects accept a completion message as None, a message list, a bundle list, or a FUNCTION of the
+\* server returning one of those: [t |-> "fn", ret |-> value].  What goes on the wire - and therefore what
+\* every size prediction must be made on - is the RESOLVED argument list.
+RECURSIVE Resolve(_)
+Resolve(v) ==
+    IF v.t = "fn" THEN Resolve(v.ret)
+    ELSE IF v.t = "m" THEN [v EXCEPT !.args = [i \in 1..Len(v.args) |-> Resolve(v.args[i])]]
+    ELSE IF v.t = "B" THEN [v EXCEPT !.el = [i \in 1..Len(v.el) |-> Resolve(v.el[i])]]
+    ELSE v
+DRecv == <<47, 100, 95, 114, 101, 99, 118>>                   \* "/d_recv"
+DRecvMsg(n, cm) == [t |-> "m", a |-> DRecv, args |-> <<[t |-> "b", z |-> n], Resolve(cm)>>]
+\* L2: SynthDef._do_send's choice for a definition of n bytes ("raise" where the prediction raises)
+DSendChoice(n, cm) == LET v == DRecvMsg(n, cm) IN
+                      IF ~Predictable(v) THEN "raise" ELSE IF Pred(v) <= Limit THEN "/d_recv" ELSE "/d_load"
+\* L1: whatever is sent as /d_recv fits a datagram
+DSendSafe(n, cm) == DSendChoice(n, cm) = "/d_recv" => EncLen(DRecvMsg(n, cm)) <= Limit
+
 (* ---------------------------------------------------------------- L1: splitting *)
 \* real = sequence of encoded element lengths; split = sequence of groups of element indices;
 \* extra = bytes appended to every datagram (0 or SyncElem)
